@@ -337,11 +337,18 @@ type Objects struct {
 
 func ObjectsOf(p *workflow.Plan) Objects {
 	var o Objects
+	addActs := func(as []*workflow.Action) {
+		for _, a := range as {
+			if a != nil { // a vault may hand back nil elements (that is a finding, not a crash of the harness)
+				o.Actions = append(o.Actions, a)
+			}
+		}
+	}
 	grp := func(cs ...*workflow.Checks) {
 		for _, c := range cs {
 			if c != nil {
 				o.Checks = append(o.Checks, c)
-				o.Actions = append(o.Actions, c.Actions...)
+				addActs(c.Actions)
 			}
 		}
 	}
@@ -351,7 +358,7 @@ func ObjectsOf(p *workflow.Plan) Objects {
 		grp(b.BypassChecks, b.PreChecks, b.PostChecks, b.ContChecks, b.DeferredChecks)
 		for _, s := range b.Sequences {
 			o.Seqs = append(o.Seqs, s)
-			o.Actions = append(o.Actions, s.Actions...)
+			addActs(s.Actions)
 		}
 	}
 	return o
@@ -372,4 +379,51 @@ func SetPlanIDs(p *workflow.Plan) {
 	for _, x := range o.Actions {
 		x.SetPlanID(p.ID)
 	}
+}
+
+// BigPlan is a stored-form plan with at least 4 blocks x 6 sequences x 4 actions (more than 120 objects,
+// so that its items do not fit into one hundred), every action on a registered plugin.
+func BigPlan(r *core.Rand) *workflow.Plan {
+	g := plangen.New(r, plangen.Opts{GroupP: 0.3, MaxBlocks: 4, MaxSeqs: 6, MaxActions: 5, MaxCheckActions: 3, KeyP: 0.1, AltP: 0.3})
+	p := g.Plan()
+	for len(p.Blocks) < 4 {
+		p.Blocks = append(p.Blocks, g.Block(fmt.Sprintf("b%d", len(p.Blocks))))
+	}
+	for bi, b := range p.Blocks {
+		for len(b.Sequences) < 6 {
+			b.Sequences = append(b.Sequences, g.Sequence(fmt.Sprintf("b%d/s%d", bi, len(b.Sequences))))
+		}
+		for si, s := range b.Sequences {
+			for len(s.Actions) < 4 {
+				s.Actions = append(s.Actions, g.Action(false, fmt.Sprintf("b%d/s%d/%d", bi, si, len(s.Actions))))
+			}
+		}
+	}
+	Materialize(r, p, MatOpts{AnyP: 0.05})
+	return p
+}
+
+// ManyActions is a stored-form plan whose sequences and check groups have 4-6 actions each.
+func ManyActions(r *core.Rand) *workflow.Plan {
+	g := plangen.New(r, plangen.Opts{GroupP: 0.5, MaxBlocks: 2, MaxSeqs: 2, MaxActions: 6, MaxCheckActions: 6, KeyP: 0.2, AltP: 0.3})
+	p := g.Plan()
+	grow := func(c *workflow.Checks, path string) {
+		for c != nil && len(c.Actions) < 4 {
+			c.Actions = append(c.Actions, g.Action(true, fmt.Sprintf("%s/%d", path, len(c.Actions))))
+		}
+	}
+	grow(p.PreChecks, "p/pre")
+	grow(p.ContChecks, "p/cont")
+	grow(p.DeferredChecks, "p/deferred")
+	for bi, b := range p.Blocks {
+		grow(b.PreChecks, fmt.Sprintf("b%d/pre", bi))
+		grow(b.PostChecks, fmt.Sprintf("b%d/post", bi))
+		for si, s := range b.Sequences {
+			for len(s.Actions) < 4 {
+				s.Actions = append(s.Actions, g.Action(false, fmt.Sprintf("b%d/s%d/%d", bi, si, len(s.Actions))))
+			}
+		}
+	}
+	Materialize(r, p, MatOpts{AnyP: 0.1})
+	return p
 }
